@@ -108,3 +108,108 @@ Theorem C02_solve_feasible_weight_history fuel s s' :
     ZERO_UPPERBOUND <= sl /\ (act_of s' k = true -> sl == 0) /\ (ceq (con_of s' k) = true -> sl == 0).
 Proof. exact (fun R H => sat_on_return_w fuel s Solve s' R H). Qed.
 Print Assumptions C02_solve_feasible_weight_history.
+
+(* ================= static solver round: Solver::solve() = satisfy(); refine() of the static solver model
+   (Vpsc/StaticModel.v).  static_solve_feasible: a normal return keeps every constraint of the input to 1e-10 on the
+   reported positions (refine's closing scan); optimality of the result is decided per run by the kkt_ok certificate. *)
+From Adapt Require Import Vpsc.StaticModel Vpsc.StaticFrame.
+Theorem C02_static_solve_feasible vs cs s' :
+  wf_cons vs cs -> static_solve (static_init vs cs) = Ok s' ->
+  length (static_positions s') = length vs /\
+  forall k, In k cs -> ZERO_UPPERBOUND <= slackv vs (place_of (static_positions s')) k.
+Proof. exact (static_solve_sat_tol vs cs s'). Qed.
+Print Assumptions C02_static_solve_feasible.
+
+(* ================= third round (Vpsc/VpscKktB.v, VpscStationary.v): the stretch lemma compute_dfdv_stationary *)
+From Adapt Require Import Vpsc.VpscFrame Vpsc.VpscTree Vpsc.VpscWalks Vpsc.VpscKktB Vpsc.VpscStationary.
+
+(* Block::compute_dfdv over a sub-tree (V', E') of active constraints entered at v from u: it writes only multipliers of
+   E', leaves the stationarity residual  dfdv_w + scl_w (sum_out lm - sum_in lm)  equal to 0 at every w of V' other than
+   v - for ANY block position - and returns the residual of v without the edge back to u, divided by scl_v *)
+Theorem C02_compute_dfdv_stationary s this :
+  act_inv s -> (forall i, ~ scl (var_of s i) == 0) ->
+  forall fuel track V' E' v u mn x0 d mn' x',
+  tree (con_of s) V' E' -> sub_ok s this V' E' v u ->
+  (forall z, V' z -> blk_of s z = this) -> (forall e, E' e -> Eof s this e) -> (forall p, u = Some p -> ~ V' p) ->
+  lm_only s x0 -> length (clm x0) = length (scons s) ->
+  compute_dfdv fuel track this v u mn x0 = Ok (d, mn', x') -> cd_post s this V' E' v u x0 d x'.
+Proof. exact (compute_dfdv_stat s this). Qed.
+Print Assumptions C02_compute_dfdv_stationary.
+
+(* Block::findMinLM on a block whose statistics are up to date (posn = (AD-AB)/A2 with AB, AD, A2 the sums over the
+   block): the residual is 0 at EVERY variable of the block, the root included; only multipliers of the block change *)
+Theorem C02_find_min_lm_stationary s b mn s' :
+  book s -> act_inv s -> forest s -> (forall i, ~ scl (var_of s i) == 0) ->
+  block_ready s b -> length (clm s) = length (scons s) ->
+  find_min_lm s b = Ok (mn, s') ->
+  lm_only s s' /\ length (clm s') = length (scons s) /\
+  (forall e, ~ Eof s b e -> lm_of s' e = lm_of s e) /\ stationary_block s s' b.
+Proof. exact (find_min_lm_stationary s b mn s'). Qed.
+Print Assumptions C02_find_min_lm_stationary.
+
+(* re-running findMinLM on the block of every variable (what the next splitBlocks does first) gives a multiplier vector
+   that satisfies the stationarity equation of KKT.v exactly at every variable, for the state's own positions *)
+Theorem C02_relm_stationary s s' :
+  inv s -> all_ok s -> all_fresh s -> length (clm s) = length (scons s) ->
+  relm s = Ok s' ->
+  lm_only s s' /\
+  forall i, (i < length (svars s))%nat -> stat_res (svars s) (lcons_of s') (xs_of s) i == 0.
+Proof. exact (relm_stationary s s'). Qed.
+Print Assumptions C02_relm_stationary.
+
+(* duality gap of the state's positions against EVERY feasible placement, from the negative parts of the recomputed
+   multipliers alone (complementary slackness is exact: active constraints are tight, the others carry multiplier 0) *)
+Theorem C02_relm_gap_bound s s' :
+  inv s -> all_ok s -> all_fresh s -> length (clm s) = length (scons s) ->
+  relm s = Ok s' ->
+  forall y, feasible (svars s) (scons s) y ->
+    obj (svars s) (xs_of s) - obj (svars s) y <= gap_of s s'.
+Proof. exact (relm_gap_bound s s'). Qed.
+Print Assumptions C02_relm_gap_bound.
+
+(* no negative recomputed multiplier on an active inequality: no feasible placement has a smaller objective *)
+Theorem C02_relm_optimal s s' :
+  inv s -> all_ok s -> all_fresh s -> length (clm s) = length (scons s) ->
+  relm s = Ok s' ->
+  (forall c, (c < length (scons s))%nat -> act_of s c = true -> ceq (con_of s c) = false -> 0 <= lm_of s' c) ->
+  forall y, feasible (svars s) (scons s) y -> obj (svars s) (xs_of s) <= obj (svars s) y.
+Proof. exact (relm_optimal s s'). Qed.
+Print Assumptions C02_relm_optimal.
+
+(* C02_split_blocks_exit_kkt, stated on the recomputed multipliers: if the test splitBlocks applies (no multiplier of an
+   active inequality below -tau; tau = 1e-4 in the code) finds nothing to split, the objective exceeds the optimum by at
+   most  sum_i (scl_i * tau * deg_i)^2 / (4 w_i) *)
+Theorem C02_split_blocks_exit_kkt s s' tau :
+  inv s -> all_ok s -> all_fresh s -> length (clm s) = length (scons s) ->
+  relm s = Ok s' -> 0 <= tau ->
+  (forall c, (c < length (scons s))%nat -> act_of s c = true -> ceq (con_of s c) = false -> - tau <= lm_of s' c) ->
+  forall y, feasible (svars s) (scons s) y -> obj (svars s) (xs_of s) - obj (svars s) y <= tau_bound s tau.
+Proof. exact (relm_near_optimal s s' tau). Qed.
+Print Assumptions C02_split_blocks_exit_kkt.
+
+(* PARTIAL: for every history and every solve() that returns; the two hypotheses on the returned state s' that are not
+   derived from reachability are named in Vpsc/VpscStationary.v (block statistics AB/AD up to date; length of the lm
+   vector) and are evaluated by the extracted model on every state it visits (evidence key model_stationarity) *)
+Theorem C02_solve_near_optimal_history_partial fuel s s' s2 tau :
+  reachable_wf s -> inc_solve fuel s = Ok s' ->
+  all_fresh s' -> length (clm s') = length (scons s') ->
+  relm s' = Ok s2 -> 0 <= tau ->
+  (forall c, (c < length (scons s'))%nat -> act_of s' c = true -> ceq (con_of s' c) = false -> - tau <= lm_of s2 c) ->
+  (forall i, (i < length (svars s'))%nat -> stat_res (svars s') (lcons_of s2) (xs_of s') i == 0) /\
+  forall y, feasible (svars s') (scons s') y ->
+    obj (svars s') (place_of (final_positions s')) - obj (svars s') y <= tau_bound s' tau.
+Proof. exact (solve_near_optimal_history_partial fuel s s' s2 tau). Qed.
+Print Assumptions C02_solve_near_optimal_history_partial.
+
+(* the same with the multipliers recomputed from a zeroed lm vector (findMinLM resets the active multipliers before it
+   computes them): no hypothesis on the lm vector; what remains is all_fresh s' *)
+Theorem C02_solve_near_optimal_history_partial0 fuel s s' s2 tau :
+  reachable_wf s -> inc_solve fuel s = Ok s' ->
+  all_fresh s' ->
+  relm (zero_lm s') = Ok s2 -> 0 <= tau ->
+  (forall c, (c < length (scons s'))%nat -> act_of s' c = true -> ceq (con_of s' c) = false -> - tau <= lm_of s2 c) ->
+  (forall i, (i < length (svars s'))%nat -> stat_res (svars s') (lcons_of s2) (xs_of s') i == 0) /\
+  forall y, feasible (svars s') (scons s') y ->
+    obj (svars s') (place_of (final_positions s')) - obj (svars s') y <= tau_bound s' tau.
+Proof. exact (solve_near_optimal_history_partial0 fuel s s' s2 tau). Qed.
+Print Assumptions C02_solve_near_optimal_history_partial0.
